@@ -15,8 +15,8 @@ theorem depth_of_holds {t : Thread} (h : holdsPc t.pc = true) : depth t = idepth
   simp [depth, h]; omega
 
 theorem lpass_d (ti : Nat) : ∀ fuel,
-    (∀ s s' t, dLoopX fuel s ti = some s' → s.thread? ti = some t → t.iter = none → LX s ti 0 → LQ s') ∧
-    (∀ s s' t, dGetX fuel s ti = some s' → s.thread? ti = some t → t.iter = none → LX s ti 0 → LQ s') := by
+    (∀ s s' t, dLoopX fuel s ti = some s' → s.thread? ti = some t → LX s ti (idepth t) → LQ s') ∧
+    (∀ s s' t, dGetX fuel s ti = some s' → s.thread? ti = some t → LX s ti (idepth t) → LQ s') := by
   intro fuel
   induction fuel with
   | zero =>
@@ -25,27 +25,30 @@ theorem lpass_d (ti : Nat) : ∀ fuel,
     · intro s s' t h; rw [dGetX.eq_1] at h; cases h
   | succ n ih =>
     refine ⟨?_, ?_⟩
-    · intro s s' t h ht hit hL
+    · intro s s' t h ht hL
       unfold dLoopX at h
       try simp only [] at h
       split at h
       · cases h
-        exact hL.closeUpd ht _ (by simp [depth, holdsPc, idepth, hit]) (by simp [CurOK])
-      · exact ih.2 _ _ _ h ht hit hL
-    · intro s s' t h ht hit hL
+        exact hL.closeUpd ht _ (by simp [depth, holdsPc, idepth]) (by simp [CurOK])
+      · exact ih.2 _ _ _ h ht hL
+    · intro s s' t h ht hL
       unfold dGetX at h
       try simp only [] at h
       split at h
       · cases h
-        exact hL.closeUpd ht _ (by simp [depth, holdsPc, idepth, hit]) (by simp [CurOK])
+        exact hL.closeUpd ht _ (by simp [depth, holdsPc, idepth]) (by simp [CurOK])
       · split at h
-        · exact ih.1 _ _ _ h (by thr) hit (hL.frame rfl rfl rfl rfl)
+        · exact ih.1 _ _ _ h (by thr) (hL.frame rfl rfl rfl rfl)
         · cases h
-          refine LX.closeUpd (t := t) (d := 0) ?_ ?_ _ ?_ ?_
+          refine LX.closeUpd (t := t) (d := idepth t) ?_ ?_ _ ?_ ?_
           · exact hL.frame rfl rfl rfl rfl
           · thr
-          · simp [depth, holdsPc, idepth, hit]
+          · simp [depth, holdsPc, idepth]
           · simp [CurOK]
+
+theorem LX.updEm {s : State} {ti d : Nat} (hL : LX s ti d) (e : Eid) (f : EmObj → EmObj) : LX (s.updEm e f) ti d :=
+  hL.frame (by simp) (by simp) (by simp) (by simp)
 
 structure AllL (fuel : Nat) : Prop where
   fin : ∀ s ti res s' t, finishOpX fuel s ti res = some s' → s.thread? ti = some t → LX s ti (idepth t) →
@@ -105,14 +108,188 @@ theorem allL : ∀ fuel, AllL fuel := by
         · exact ih.cit _ _ _ _ h ht hL
         · cases h
           exact hL.close ht _ (by simp [depth, holdsPc, idepth]) (by simp [CurOK])
-    · sorry
-    · sorry
-    · sorry
-    · sorry
-    · sorry
-    · sorry
-    · sorry
-    · sorry
-    · sorry
+    · -- startOp
+      intro s ti op s' t h ht hc hL
+      unfold startOpX at h
+      try simp only [] at h
+      split at h
+      · exact ih.stem _ _ _ _ _ h ht hc hL
+      · split at h
+        · exact ih.fin _ _ _ _ _ h ht hL (notok (by decide))
+        · split at h
+          · exact ih.fin _ _ _ _ _ h ht hL (notok (by decide))
+          · cases h
+            exact hL.closeUpd ht _ (by simp [depth, holdsPc, idepth]) (by simp [CurOK, hc])
+      · exact ih.ent _ _ _ _ _ h ht hc (hL.frame rfl rfl rfl rfl)
+      · simp only [ht] at h
+        cases h
+        exact hL.raise ht (.died t.name) rfl trivial _ (by simp [depth, holdsPc, idepth]) (by simp [CurOK])
+      · exact ih.ent _ _ _ _ _ h ht hc hL
+    · -- enterLocked
+      intro s ti op s' t h ht hc hL
+      unfold enterLockedX at h
+      try simp only [] at h
+      split at h
+      · rename_i ho
+        exact ih.lck _ _ _ _ _ h ht hc (hL.acquire ho)
+      · cases h
+        exact hL.closeUpd ht _ (by simp [depth, holdsPc, idepth]) (by simp [CurOK, hc])
+    · -- locked
+      intro s ti op s' t h ht hc hL
+      unfold lockedX at h
+      try simp only [] at h
+      split at h
+      · -- schedule
+        rename_i h0 w fault
+        have hnr : ∀ op', t.cur = some op' → ∀ h' w', removes op' h' w' = true → False := by
+          intro op' hc' h' w' hr; rw [hc] at hc'; cases hc'; simp [removes] at hr
+        split at h
+        · refine ih.fin _ _ _ _ _ h (by thr) ?_ (fun _ op' hc' h' w' hr => (hnr op' hc' h' w' hr).elim)
+          exact LX.release (hL.hist_step (o := .reg h0 w) rfl rfl rfl rfl trivial (Or.inr (Nat.succ_pos _)))
+        · split at h
+          · exact ih.fin _ _ _ _ _ h (by thr) hL.release (notok (by decide))
+          · split at h
+            · split at h
+              · exact ih.fin _ _ _ _ _ h (by thr) (LX.release (hL.frame rfl rfl rfl rfl)) (notok (by decide))
+              · cases h
+                refine LX.closeUpd (t := t) (d := idepth t + 1) ?_ ?_ _ ?_ ?_
+                · have hL1 : LX ({ s with emObjs := s.emObjs ++ [({ wid := w, script := (alookup w s.emitScripts).getD [] } : EmObj)] } : State) ti (idepth t + 1) :=
+                    hL.frame rfl rfl rfl rfl
+                  exact LX.updEm (hL1.spawn _ _) _ _
+                · rw [updEm_thread?]; exact spawn_thread? _ _ ht
+                · simp [depth, holdsPc, idepth]; omega
+                · exact ⟨fault, hc⟩
+            · exact ih.sfin _ _ _ _ _ _ _ h ht ⟨fault, hc⟩ (hL.frame rfl rfl rfl rfl)
+      · -- unschedule
+        rename_i w
+        split at h
+        · exact ih.fin _ _ _ _ _ h (by thr) hL.release (notok (by decide))
+        · split at h
+          · exact ih.fin _ _ _ _ _ h (by thr) hL.release (notok (by decide))
+          · rename_i e he hnone
+            have hL2 : LX ((({ s with handlers := aerase w s.handlers, regEm := s.regEm.filter (· != e) } : State).log (.unregW w)).updEm e (fun o => { o with stopped := true })) ti (idepth t + 1) :=
+              LX.frame (hL.hist_step (o := .unregW w) (s' := (({ s with handlers := aerase w s.handlers, regEm := s.regEm.filter (· != e) } : State).log (.unregW w))) rfl rfl rfl rfl trivial (Or.inl rfl))
+                (by simp) (by simp) (by simp) (by simp)
+            have hreg : ∀ h', registered ((({ s with handlers := aerase w s.handlers, regEm := s.regEm.filter (· != e) } : State).log (.unregW w)).updEm e (fun o => { o with stopped := true })).hist h' w = false := by
+              intro h'; simp [registered_snoc, regStep]
+            split at h
+            · cases h
+              exact hL2.closeUpd (by thr) _ (by simp [depth, holdsPc, idepth]; omega) ⟨hc, hreg⟩
+            · exact ih.ufin _ _ _ _ _ h (by thr) hc hreg hL2
+      · -- addHandler
+        rename_i h0 w
+        refine ih.fin _ _ _ _ _ h (by thr) ?_ ?_
+        · exact LX.release (hL.hist_step (o := .reg h0 w) rfl rfl rfl rfl trivial (Or.inr (Nat.succ_pos _)))
+        · intro _ op' hc' h' w' hr; rw [hc] at hc'; cases hc'; simp [removes] at hr
+      · -- removeHandler
+        rename_i h0 w
+        split at h
+        · refine ih.fin _ _ _ _ _ h (by thr) ?_ ?_
+          · exact LX.release (hL.hist_step (o := .unreg h0 w) rfl rfl rfl rfl trivial (Or.inl rfl))
+          · intro _ op' hc' h' w' hr; rw [hc] at hc'; cases hc'
+            simp [removes] at hr
+            obtain ⟨e1, e2⟩ := hr; subst e1; subst e2
+            simp [registered_snoc, regStep]
+        · exact ih.fin _ _ _ _ _ h (by thr) (LX.release (hL.frame rfl rfl rfl rfl)) (notok (by decide))
+      · exact ih.uab _ _ _ _ _ h ht (by simpa using hc) hL
+      · exact ih.uab _ _ _ _ _ h ht (by simpa using hc) hL
+      · cases h
+    · -- schedFinish
+      intro s ti h0 w e s' t h ht hc hL
+      unfold schedFinishX at h
+      try simp only [] at h
+      refine ih.fin _ _ _ _ _ h (by thr) ?_ ?_
+      · exact LX.release (hL.hist_step (o := .reg h0 w) rfl rfl rfl rfl trivial (Or.inr (Nat.succ_pos _)))
+      · obtain ⟨f, hc⟩ := hc
+        intro _ op' hc' h' w' hr; rw [hc] at hc'; cases hc'; simp [removes] at hr
+    · -- unschedFinish
+      intro s ti w s' t h ht hc hreg hL
+      unfold unschedFinishX at h
+      try simp only [] at h
+      split at h
+      · refine ih.fin _ _ _ _ _ h (by thr) (LX.release (hL.frame rfl rfl rfl rfl)) ?_
+        intro _ op' hc' h' w' hr; rw [hc] at hc'; cases hc'
+        simp [removes] at hr; subst hr
+        simpa using hreg h'
+      · exact ih.fin _ _ _ _ _ h (by thr) hL.release (notok (by decide))
+    · -- uallBody
+      intro s ti b s' t h ht hc hL
+      unfold uallBodyX at h
+      try simp only [] at h
+      refine ih.uajn _ _ _ _ _ _ h ?_ hc ?_ ?_
+      · rw [foldUpdEm_thread?]; exact ht
+      · intro h' w'; rw [foldUpdEm_hist]; simp [registered_snoc, regStep]
+      · apply LX.foldUpdEm
+        exact hL.hist_step (o := .unregAll) rfl rfl rfl rfl trivial (Or.inl rfl)
+    · -- uallJoinNext
+      intro s ti es b s' t h ht hc hreg hL
+      unfold uallJoinNextX at h
+      try simp only [] at h
+      split at h
+      · split at h
+        · cases h
+          exact hL.closeUpd ht _ (by simp [depth, holdsPc, idepth]; omega) ⟨hc, hreg⟩
+        · exact ih.uajn _ _ _ _ _ _ h ht hc hreg hL
+      · have hL1 : LX ({ s with regEm := [], watches := [] } : State).release ti (idepth t) :=
+          LX.release (hL.frame rfl rfl rfl rfl)
+        have ht1 : ({ s with regEm := [], watches := [] } : State).release.thread? ti = some t := by thr
+        have hreg1 : ∀ h' w', registered ({ s with regEm := [], watches := [] } : State).release.hist h' w' = false := by
+          intro h' w'; simpa using hreg h' w'
+        generalize ({ s with regEm := [], watches := [] } : State).release = s1 at h hL1 ht1 hreg1
+        split at h
+        · obtain ⟨t', ht', e1, e2, e3, e4⟩ := putItem_thread? (fun _ => QItem.stop) (fun _ => Obs.enqStop) Obs.dropStop ht1
+          have hi : idepth t' = idepth t := by simp [idepth, e2]
+          refine ih.fin _ _ _ _ _ h ht' ?_ ?_
+          · rw [hi]; exact hL1.putItem _ _ _ rfl rfl trivial trivial
+          · intro _ op' hc' h' w' hr
+            rw [putItem_registered _ _ _ _ rfl rfl]; exact hreg1 h' w'
+        · refine ih.fin _ _ _ _ _ h ht1 hL1 ?_
+          intro _ op' hc' h' w' hr; exact hreg1 h' w'
+    · -- startEmitters
+      intro s ti es s' t h ht hc hL
+      unfold startEmittersX at h
+      try simp only [] at h
+      split at h
+      · split at h
+        · cases h
+          refine LX.closeUpd (t := t) (d := idepth t) ?_ ?_ _ ?_ ?_
+          · exact LX.updEm (hL.spawn _ _) _ _
+          · rw [updEm_thread?]; exact spawn_thread? _ _ ht
+          · simp [depth, holdsPc, idepth]
+          · simpa [CurOK] using hc
+        · cases h
+      · cases h
+        refine LX.closeUpd (t := t) (d := idepth t) ?_ ?_ _ ?_ ?_
+        · exact LX.frame (hL.spawn "D" .dispatcher) rfl rfl rfl rfl
+        · exact spawn_thread? "D" .dispatcher ht
+        · simp [depth, holdsPc, idepth]
+        · simpa [CurOK] using hc
+    · -- continueIter
+      intro s ti s' t h ht hL
+      unfold continueIterX at h
+      simp only [ht] at h
+      split at h
+      · cases h
+      · rename_i u w v hit
+        have hi : idepth t = 1 := by simp [idepth, hit]
+        rw [hi] at hL
+        refine (lpass_d ti n).1 _ _ { t with iter := none } h ?_ ?_
+        · rw [release_thread?]; exact setThread_thread?_self _ (by thr)
+        · exact ((hL.log (.dispatchEnd u) trivial (Or.inl rfl)).setThreadMine _).release
+      · rename_i u w v h0 rest hit
+        have hi : idepth t = 1 := by simp [idepth, hit]
+        rw [hi] at hL
+        have hL0 : LX (if (alookup w s.handlers).isNone then ({ s with handlers := ainsert w [] s.handlers } : State) else s) ti 1 := by
+          split
+          · exact hL.frame rfl rfl rfl rfl
+          · exact hL
+        have ht0 : (if (alookup w s.handlers).isNone then ({ s with handlers := ainsert w [] s.handlers } : State) else s).thread? ti = some t := by
+          split <;> exact ht
+        generalize (if (alookup w s.handlers).isNone then ({ s with handlers := ainsert w [] s.handlers } : State) else s) = s0 at h hL0 ht0
+        split at h
+        · refine ih.nxt _ _ _ _ h (setThread_thread?_self (t := t) _ (by rw [log_thread?]; exact ht0)) ?_
+          exact (LX.log (s := { s0 with invoc := ainsert h0 ((alookup h0 s0.invoc).getD 0 + 1) s0.invoc }) (hL0.frame rfl rfl rfl rfl) (.call h0 w v u) trivial (Or.inl rfl)).setThreadMine _
+        · refine ih.cit _ _ _ _ h (setThread_thread?_self _ (by simpa using ht0)) ?_
+          exact (hL0.log (.skip h0 u) trivial (Or.inl rfl)).setThreadMine _
 
 end WD.ProofsObs
